@@ -66,10 +66,14 @@ class Runner:
         return json.loads(line)
 
     def find(self, code, structured=False, macros=(("log", "info"),)):
-        return self.ask({"op": "find", "code": code, "structured": structured, "macros": [list(m) for m in macros]})
+        r = self.ask({"op": "find", "code_hex": code.encode("utf-8").hex(), "structured": structured,
+                      "macros": [list(m) for m in macros]})
+        if "entries" not in r and "panic" not in r:
+            raise NativeError("runner answered %r" % (r,))
+        return r
 
     def extract(self, text):
-        return self.ask({"op": "extract", "text": text})["reference"]
+        return self.ask({"op": "extract", "text_hex": text.encode("utf-8").hex()})["reference"]
 
     def close(self):
         try:
